@@ -12,7 +12,7 @@ use std::io;
 use super::{Array, Shape};
 
 mod header;
-use header::{Endian, Header, HeaderDict, Type, TypeDescriptor, Version};
+use header::{Endian, Header, HeaderDict, Type, TypeDescriptor};
 
 /// The npy magic number.
 pub(crate) const MAGIC: [u8; 6] = *b"\x93NUMPY";
@@ -47,14 +47,11 @@ pub fn write_array<W>(writer: &mut W, array: &Array<f64>) -> io::Result<()>
 where
     W: io::Write,
 {
-    let header = Header::new(
-        Version::V1,
-        HeaderDict::new(
-            TypeDescriptor::new(Endian::Little, Type::F8),
-            false,
-            array.shape().as_ref().to_vec(),
-        ),
-    );
+    let header = Header::with_fitting_version(HeaderDict::new(
+        TypeDescriptor::new(Endian::Little, Type::F8),
+        false,
+        array.shape().as_ref().to_vec(),
+    ));
 
     header.write(writer)?;
 
